@@ -21,6 +21,12 @@ PENDING_REASON = "check under construction (designed in DESIGN.md section 6); no
 ALL = ["C%02d" % i for i in range(1, 20)]
 
 CHECKS = {
+"C12": dict(
+  category="exploration",
+  text="Per generated diploid call set and configuration, ~19 executions that each perturb one dimension (container, explicit BGZF block layout incl. empty blocks and 1-byte blocks, --threads 1..16, transport path / stdin-file / pre-filled pipe, getrandom-derived hash seed, environment and cwd, repetition) are compared with the canonical execution: stdout bytes + exit status of the real binary (L2), spectrum bits in-process (L1, where hash seeds are also a controlled dimension through an in-process getrandom seam). Sampling of workloads and variants; thread count and layout are seeded, the interleaving of noodles-bgzf worker threads is not owned by the simulator.",
+  design_ref="DESIGN.md section 6 / C12",
+  note="SFS_ALLOW_STDIN=1 in every run. Diploid call sets with GT in every record only. Chunking held benign (C18's dimension). BGZF worker interleaving is real OS scheduling inside a dependency; the oracle is insensitive to it by construction.",
+  technique="deterministic simulation: seeded configurations/schedules with simulated getrandom (hash seeds), environment and transport construction; determinism-across-executions oracle"),
 "C10": dict(
   category="fault_enumeration",
   text="For each generated call set + configuration one fault kind (source I/O error, ploidy error in a selected / unselected sample, strict violation; at process level also malformed VCF lines, truncated BCF records, corrupted BGZF blocks and shim read errors at record boundaries) is placed at every record index of the stream in turn (exhaustive per case for streams <= 40 records, sampled positions above), optionally followed by a second fault; conservation (mass + skipped = records), strict-mode first-failure and all-or-nothing are judged on every run. Call sets and configurations are sampled.",
